@@ -91,6 +91,7 @@ class World:
             vals = {t: pool.values[e][name] for t, (name, _) in zip(self.terms, pool.terminals)}
             self.envs.append(TermEnv(vals))
         self.cache = {}
+        self.guard_inputs = False
 
     def mi(self, mi):
         out = []
@@ -207,6 +208,23 @@ def _remove_complex(e):
     return remove_complex_nodes(e)
 
 
+class InputMutated(Exception):
+    """An operation changed one of its input objects (op, type, repr before, repr after)."""
+
+
+def _snap(a):
+    """What must not change about an input: repr, hash, shape, free indices, operand identities."""
+    try:
+        r = repr(a)
+    except RecursionError:
+        r = "<cyclic: repr recursed without end>"
+    try:
+        h = hash(a)
+    except Exception:  # noqa: BLE001
+        h = None
+    return (r, h, getattr(a, "ufl_shape", None), getattr(a, "ufl_free_indices", None))
+
+
 class RealCodeError(Exception):
     """The real code raised while being observed (an observable, not a machinery failure)."""
 
@@ -281,7 +299,18 @@ def build(w, prog):
         if hit is None:
             try:
                 args = [objs[i - 1] for i in node["args"]]
-                hit = ("ok", apply_op(w, node["op"], args, node["mi"]))
+                pre = [_snap(a) for a in args] if w.guard_inputs else None
+                res = apply_op(w, node["op"], args, node["mi"])
+                if isinstance(res, (int, float, complex)) and not isinstance(res, bool):
+                    # ufl's math functions fold literals to python numbers (operators._mathfunction)
+                    res = w.ufl.as_ufl(res)
+                hit = ("ok", res)
+                if pre is not None:
+                    for a, p in zip(args, pre):
+                        q = _snap(a)
+                        if q != p:
+                            hit = ("mutated", (node["op"], type(a).__name__, p[0][:160], q[0][:160]))
+                            break
             except (MachineryError, Unsupported):
                 raise
             except Exception as exc:  # noqa: BLE001 - ufl's refusal is an observable
@@ -290,6 +319,8 @@ def build(w, prog):
                 w.cache[key] = hit
         if hit[0] == "raise":
             return objs[ninit:], (k, hit[1])
+        if hit[0] == "mutated":
+            return objs[ninit:], (k, InputMutated(hit[1]))
         objs.append(hit[1])
     return objs[ninit:], None
 
@@ -346,10 +377,15 @@ def compare_inner(w, rec):
         if k < len(prog) - 1:
             # an earlier step was refused: that state was judged on its own; nothing to add
             return "prefix-refused", None
+        if isinstance(exc, InputMutated):
+            op, tname, before, after = exc.args[0]
+            return "mismatch:input-mutated", f"{op} changed its input {tname}: repr was {before} now {after}"
         if not any_def:
             return "refused-undefined", None
         return "mismatch:raise", f"{type(exc).__name__}: {exc}"
     obj = objs[-1]
+    if not hasattr(obj, "ufl_shape"):
+        return "mismatch:non-ufl-result", f"the operation returned a {type(obj).__name__} ({obj!r}), not a UFL expression"
     try:
         sh, fi, tabs = observe(w, obj, rec.get("bool", False))
     except RealCodeError as exc:
